@@ -174,6 +174,10 @@ class Projector(object):
                     if ino is not None:
                         self.classes.setdefault(id(ino), []).append((ns, p))
                         e['_ino'] = id(ino)
+                    elif self.is_catalog_name(c):
+                        # names of the boot catalog share its (in-memory) content
+                        self.classes.setdefault('cat', []).append((ns, p))
+                        e['_ino'] = 'cat'
                 if k == 'file':
                     e['n'] = c.get_data_length()
                     try:
@@ -187,6 +191,10 @@ class Projector(object):
                 if k == 'dir':
                     stack.append((p, capi, c))
         return out
+
+    def is_catalog_name(self, rec):
+        cat = self.iso.eltorito_boot_catalog
+        return cat is not None and any(rec is r for r in cat.dirrecords)
 
     def udf_target(self, rec):
         # UDF symlink: path components stored as file data (ECMA-167 4/14.16)
@@ -252,19 +260,19 @@ class Projector(object):
     def eltorito(self):
         cat = self.iso.eltorito_boot_catalog
         if cat is None:
-            return None
+            return {'on': False, 'entries': [], 'plat': 0, 'detail': []}
         ents = [cat.initial_entry]
         for sec in cat.sections:
             ents.extend(sec.section_entries)
         out = []
+        detail = []
         for ent in ents:
-            members = self.classes.get(id(ent.inode), [])
-            out.append({'names': sorted([m[0], list(m[1])] for m in members),
-                        'media': ent.boot_media_type, 'boot': ent.boot_indicator,
-                        'count': ent.sector_count, 'seg': ent.load_segment, 'sys': ent.system_type,
-                        'bit': ent.inode.boot_info_table is not None if ent.inode is not None else False})
-        return {'plat': cat.validation_entry.platform_id, 'entries': out,
-                'nsections': len(cat.sections)}
+            members = self.classes.get(id(ent.inode), []) if ent.inode is not None else []
+            out.append(sorted([NS_TAB[m[0]] if m[0] != 'rrv' else 'rr', list(m[1])] for m in members if m[0] != 'rrv'))
+            detail.append({'media': ent.boot_media_type, 'boot': ent.boot_indicator,
+                           'count': ent.sector_count, 'seg': ent.load_segment, 'sys': ent.system_type,
+                           'bit': ent.inode.boot_info_table is not None if ent.inode is not None else False})
+        return {'on': True, 'entries': out, 'plat': cat.validation_entry.platform_id, 'detail': detail}
 
     def hybrid(self):
         h = self.iso.isohybrid_mbr
